@@ -26,7 +26,7 @@ pub fn run(ctx: &Ctx) -> Report {
     let mut rep = Report::new(
         "exploration",
         "case i: one issuer history and one holder history, each of 1..8 calls on ONE instance; arguments of every call drawn \
-         independently (claims tagged #<call>.<n>; strategy; holder key none/ES256/EdDSA x 2 keys; decoys; format; selection; \
+         independently (claims tagged #<call>:<n>; strategy; holder key none/ES256/EdDSA x 2 keys; decoys; format; selection; \
          key-binding arguments), failing calls interleaved in about half of the histories. evaluations = calls made on reused \
          instances. Distinct = (per-call configuration sequence, success pattern); non-trivial = history of length >= 2 in which \
          consecutive calls differ in at least one of format, decoy flag, holder key, success.",
@@ -67,7 +67,7 @@ fn texts_of(parts: &Parts) -> Vec<String> {
 
 /// tags of calls other than `k` that occur in the texts
 fn foreign_tags(texts: &[String], k: usize) -> Option<String> {
-    let mine = format!("#{k}.");
+    let mine = format!("#{k}:");
     for t in texts {
         for tag in model::tags_in(t) {
             if !tag.starts_with(&mine) {
@@ -102,7 +102,7 @@ fn issuer_history(ctx: &Ctx, case: u64, l: &mut Local) {
                 1 => Some((Alg::ES256, r.usize(2))),
                 _ => Some((Alg::EdDSA, r.usize(2))),
             };
-            let poison_tag = format!("#{k}.999;");
+            let poison_tag = format!("#{k}:999;");
             let out = match kind {
                 0 => api::issue_raw(&mut issuer, &json!([1, poison_tag]), sd_jwt_rs::ClaimsForSelectiveDisclosureStrategy::AllLevels, holder, true, fmt),
                 1 => api::issue_raw(&mut issuer, &json!(poison_tag), sd_jwt_rs::ClaimsForSelectiveDisclosureStrategy::TopLevel, holder, true, fmt),
@@ -139,7 +139,7 @@ fn issuer_history(ctx: &Ctx, case: u64, l: &mut Local) {
             if let Some(pj) = parsed {
                 let canonical = serde_json::to_value(&pj).unwrap_or(Value::Null);
                 let fmt = *r.pick(&[Fmt::Compact, Fmt::Json]);
-                let claims = json!({"iss": "https://issuer.example/A", "exp": 4_000_000_000u64, format!("c#{k}.1;"): "v"});
+                let claims = json!({"iss": "https://issuer.example/A", "exp": 4_000_000_000u64, format!("c#{k}:1;"): "v"});
                 let strat = gen::gen_strategy(&mut r, &claims, StratKind::TopLevel);
                 match api::issue_with_jwk(&mut issuer, &claims, &strat, Some(&jwk), false, fmt) {
                     Outcome::Ok(text) => {
@@ -169,14 +169,14 @@ fn issuer_history(ctx: &Ctx, case: u64, l: &mut Local) {
             let kind = r.below(4);
             let (claims, holder, decoys) = match kind {
                 0 | 1 => (
-                    json!({"iss": "https://issuer.example/A", "exp": 4_000_000_000u64, "cnf": {"jwk": {"kty": "oct", "k": format!("#{k}.998;")}, "note": format!("#{k}.997;")}, format!("c#{k}.1;"): "v"}),
+                    json!({"iss": "https://issuer.example/A", "exp": 4_000_000_000u64, "cnf": {"jwk": {"kty": "oct", "k": format!("#{k}:998;")}, "note": format!("#{k}:997;")}, format!("c#{k}:1;"): "v"}),
                     Some((*r.pick(&[Alg::ES256, Alg::EdDSA]), r.usize(2))),
                     r.chance(50),
                 ),
                 2 => (json!({}), None, false),
                 _ => (json!({"iss": "https://issuer.example/A", "exp": 4_000_000_000u64, "iat": 1_700_000_000u64}), None, false),
             };
-            let nm = format!("$.c#{k}.1;");
+            let nm = format!("$.c#{k}:1;");
             let strategy = match (kind, r.below(3)) {
                 (0, _) => S::NoSDClaims,
                 (1, _) => S::Custom(vec![nm.as_str()]),
@@ -226,7 +226,7 @@ fn issuer_history(ctx: &Ctx, case: u64, l: &mut Local) {
         };
         let mut g = GenCfg::new(profile, *r.pick(&[6, 15, 30]), api::now());
         g.safe_names = skind.is_custom();
-        g.tag_prefix = format!("{k}.");
+        g.tag_prefix = format!("{k}:");
         // "independently chosen" includes choosing the same claims (and strategy) as the call before
         // while format / decoys / holder key are drawn anew
         let (u, strat, tag_owner) = match (&prev_claims, r.chance(25)) {
